@@ -504,3 +504,559 @@ Proof.
 Qed.
 
 (* ==== PART 2: per-site and per-chain lemmas (generated by `python3 -m checks.C11 --regen`) ==== *)
+
+Lemma up_closed_fill_var_rec : up_closed link_sites "fill_var_rec" (up_set "fill_var_rec") = true.
+Proof. by_vm. Qed.
+Lemma no_bad_link_above_fill_var_rec :
+  forallb (fun l => negb (str_mem (s_callee l) (up_set "fill_var_rec")) || negb (str_mem (s_id l) bad_link_ids)) link_sites = true.
+Proof. by_vm. Qed.
+
+Lemma up_closed_fillerup_aggregate : up_closed link_sites "fillerup_aggregate" (up_set "fillerup_aggregate") = true.
+Proof. by_vm. Qed.
+Lemma no_bad_link_above_fillerup_aggregate :
+  forallb (fun l => negb (str_mem (s_callee l) (up_set "fillerup_aggregate")) || negb (str_mem (s_id l) bad_link_ids)) link_sites = true.
+Proof. by_vm. Qed.
+
+Lemma up_closed_hdr_fetch : up_closed link_sites "hdr_fetch" (up_set "hdr_fetch") = true.
+Proof. by_vm. Qed.
+
+Lemma up_closed_move_file_block : up_closed link_sites "move_file_block" (up_set "move_file_block") = true.
+Proof. by_vm. Qed.
+Lemma no_bad_link_above_move_file_block :
+  forallb (fun l => negb (str_mem (s_callee l) (up_set "move_file_block")) || negb (str_mem (s_id l) bad_link_ids)) link_sites = true.
+Proof. by_vm. Qed.
+
+Lemma up_closed_ncmpio_getput_zero_req : up_closed link_sites "ncmpio_getput_zero_req" (up_set "ncmpio_getput_zero_req") = true.
+Proof. by_vm. Qed.
+
+Lemma up_closed_ncmpio_read_write : up_closed link_sites "ncmpio_read_write" (up_set "ncmpio_read_write") = true.
+Proof. by_vm. Qed.
+
+Lemma up_closed_ncmpio_write_header : up_closed link_sites "ncmpio_write_header" (up_set "ncmpio_write_header") = true.
+Proof. by_vm. Qed.
+Lemma no_bad_link_above_ncmpio_write_header :
+  forallb (fun l => negb (str_mem (s_callee l) (up_set "ncmpio_write_header")) || negb (str_mem (s_id l) bad_link_ids)) link_sites = true.
+Proof. by_vm. Qed.
+
+Lemma up_closed_ncmpio_write_numrecs : up_closed link_sites "ncmpio_write_numrecs" (up_set "ncmpio_write_numrecs") = true.
+Proof. by_vm. Qed.
+
+Lemma up_closed_write_NC : up_closed link_sites "write_NC" (up_set "write_NC") = true.
+Proof. by_vm. Qed.
+Lemma no_bad_link_above_write_NC :
+  forallb (fun l => negb (str_mem (s_callee l) (up_set "write_NC")) || negb (str_mem (s_id l) bad_link_ids)) link_sites = true.
+Proof. by_vm. Qed.
+
+Lemma nsd_move_file_block__MPI_File_read_at_all_refuted : ~ no_silent_drop link_sites (site_of "ncmpio_enddef.c:move_file_block:MPI_File_read_at_all" io_sites).
+Proof. apply (refute_by_class (site_of "ncmpio_enddef.c:move_file_block:MPI_File_read_at_all" io_sites) E_NO_SPACE). by_vm. Qed.
+
+Lemma nsd_move_file_block__MPI_File_read_at_all_drops : drops_classes (site_of "ncmpio_enddef.c:move_file_block:MPI_File_read_at_all" io_sites) [E_ACCESS; E_AMODE; E_BAD_FILE; E_FILE_EXISTS; E_NOT_SAME; E_NO_SPACE; E_NO_SUCH_FILE; E_QUOTA; E_READ_ONLY].
+Proof. apply drops_classes_intro; by_vm. Qed.
+
+Lemma nsd_move_file_block__MPI_File_read_at_all_partial : no_silent_drop_except link_sites (site_of "ncmpio_enddef.c:move_file_block:MPI_File_read_at_all" io_sites) [E_ACCESS; E_AMODE; E_BAD_FILE; E_FILE_EXISTS; E_NOT_SAME; E_NO_SPACE; E_NO_SUCH_FILE; E_QUOTA; E_READ_ONLY] [].
+Proof.
+  apply (no_silent_drop_except_nolinks_intro (site_of "ncmpio_enddef.c:move_file_block:MPI_File_read_at_all" io_sites) [E_ACCESS; E_AMODE; E_BAD_FILE; E_FILE_EXISTS; E_NOT_SAME; E_NO_SPACE; E_NO_SUCH_FILE; E_QUOTA; E_READ_ONLY] (up_set "move_file_block")); [by_vm | exact up_closed_move_file_block | exact no_bad_link_above_move_file_block].
+Qed.
+
+Lemma nsd_move_file_block__MPI_File_read_at_all_refuted_and_partial :
+  (~ no_silent_drop link_sites (site_of "ncmpio_enddef.c:move_file_block:MPI_File_read_at_all" io_sites)) /\
+  (drops_classes (site_of "ncmpio_enddef.c:move_file_block:MPI_File_read_at_all" io_sites) [E_ACCESS; E_AMODE; E_BAD_FILE; E_FILE_EXISTS; E_NOT_SAME; E_NO_SPACE; E_NO_SUCH_FILE; E_QUOTA; E_READ_ONLY]) /\
+  (no_silent_drop_except link_sites (site_of "ncmpio_enddef.c:move_file_block:MPI_File_read_at_all" io_sites) [E_ACCESS; E_AMODE; E_BAD_FILE; E_FILE_EXISTS; E_NOT_SAME; E_NO_SPACE; E_NO_SUCH_FILE; E_QUOTA; E_READ_ONLY] []).
+Proof. exact (conj nsd_move_file_block__MPI_File_read_at_all_refuted (conj nsd_move_file_block__MPI_File_read_at_all_drops nsd_move_file_block__MPI_File_read_at_all_partial)). Qed.
+
+Lemma nsd_move_file_block__MPI_File_write_at_all_refuted : ~ no_silent_drop link_sites (site_of "ncmpio_enddef.c:move_file_block:MPI_File_write_at_all" io_sites).
+Proof. apply (refute_by_class (site_of "ncmpio_enddef.c:move_file_block:MPI_File_write_at_all" io_sites) E_NO_SPACE). by_vm. Qed.
+
+Lemma nsd_move_file_block__MPI_File_write_at_all_drops : drops_classes (site_of "ncmpio_enddef.c:move_file_block:MPI_File_write_at_all" io_sites) [E_ACCESS; E_AMODE; E_BAD_FILE; E_FILE_EXISTS; E_NOT_SAME; E_NO_SPACE; E_NO_SUCH_FILE; E_QUOTA; E_READ_ONLY].
+Proof. apply drops_classes_intro; by_vm. Qed.
+
+Lemma nsd_move_file_block__MPI_File_write_at_all_partial : no_silent_drop_except link_sites (site_of "ncmpio_enddef.c:move_file_block:MPI_File_write_at_all" io_sites) [E_ACCESS; E_AMODE; E_BAD_FILE; E_FILE_EXISTS; E_NOT_SAME; E_NO_SPACE; E_NO_SUCH_FILE; E_QUOTA; E_READ_ONLY] [].
+Proof.
+  apply (no_silent_drop_except_nolinks_intro (site_of "ncmpio_enddef.c:move_file_block:MPI_File_write_at_all" io_sites) [E_ACCESS; E_AMODE; E_BAD_FILE; E_FILE_EXISTS; E_NOT_SAME; E_NO_SPACE; E_NO_SUCH_FILE; E_QUOTA; E_READ_ONLY] (up_set "move_file_block")); [by_vm | exact up_closed_move_file_block | exact no_bad_link_above_move_file_block].
+Qed.
+
+Lemma nsd_move_file_block__MPI_File_write_at_all_refuted_and_partial :
+  (~ no_silent_drop link_sites (site_of "ncmpio_enddef.c:move_file_block:MPI_File_write_at_all" io_sites)) /\
+  (drops_classes (site_of "ncmpio_enddef.c:move_file_block:MPI_File_write_at_all" io_sites) [E_ACCESS; E_AMODE; E_BAD_FILE; E_FILE_EXISTS; E_NOT_SAME; E_NO_SPACE; E_NO_SUCH_FILE; E_QUOTA; E_READ_ONLY]) /\
+  (no_silent_drop_except link_sites (site_of "ncmpio_enddef.c:move_file_block:MPI_File_write_at_all" io_sites) [E_ACCESS; E_AMODE; E_BAD_FILE; E_FILE_EXISTS; E_NOT_SAME; E_NO_SPACE; E_NO_SUCH_FILE; E_QUOTA; E_READ_ONLY] []).
+Proof. exact (conj nsd_move_file_block__MPI_File_write_at_all_refuted (conj nsd_move_file_block__MPI_File_write_at_all_drops nsd_move_file_block__MPI_File_write_at_all_partial)). Qed.
+
+Lemma nsd_move_file_block__MPI_File_write_at_refuted : ~ no_silent_drop link_sites (site_of "ncmpio_enddef.c:move_file_block:MPI_File_write_at" io_sites).
+Proof. apply (refute_by_class (site_of "ncmpio_enddef.c:move_file_block:MPI_File_write_at" io_sites) E_NO_SPACE). by_vm. Qed.
+
+Lemma nsd_move_file_block__MPI_File_write_at_drops : drops_classes (site_of "ncmpio_enddef.c:move_file_block:MPI_File_write_at" io_sites) [E_ACCESS; E_AMODE; E_BAD_FILE; E_FILE_EXISTS; E_NOT_SAME; E_NO_SPACE; E_NO_SUCH_FILE; E_QUOTA; E_READ_ONLY].
+Proof. apply drops_classes_intro; by_vm. Qed.
+
+Lemma nsd_move_file_block__MPI_File_write_at_partial : no_silent_drop_except link_sites (site_of "ncmpio_enddef.c:move_file_block:MPI_File_write_at" io_sites) [E_ACCESS; E_AMODE; E_BAD_FILE; E_FILE_EXISTS; E_NOT_SAME; E_NO_SPACE; E_NO_SUCH_FILE; E_QUOTA; E_READ_ONLY] [].
+Proof.
+  apply (no_silent_drop_except_nolinks_intro (site_of "ncmpio_enddef.c:move_file_block:MPI_File_write_at" io_sites) [E_ACCESS; E_AMODE; E_BAD_FILE; E_FILE_EXISTS; E_NOT_SAME; E_NO_SPACE; E_NO_SUCH_FILE; E_QUOTA; E_READ_ONLY] (up_set "move_file_block")); [by_vm | exact up_closed_move_file_block | exact no_bad_link_above_move_file_block].
+Qed.
+
+Lemma nsd_move_file_block__MPI_File_write_at_refuted_and_partial :
+  (~ no_silent_drop link_sites (site_of "ncmpio_enddef.c:move_file_block:MPI_File_write_at" io_sites)) /\
+  (drops_classes (site_of "ncmpio_enddef.c:move_file_block:MPI_File_write_at" io_sites) [E_ACCESS; E_AMODE; E_BAD_FILE; E_FILE_EXISTS; E_NOT_SAME; E_NO_SPACE; E_NO_SUCH_FILE; E_QUOTA; E_READ_ONLY]) /\
+  (no_silent_drop_except link_sites (site_of "ncmpio_enddef.c:move_file_block:MPI_File_write_at" io_sites) [E_ACCESS; E_AMODE; E_BAD_FILE; E_FILE_EXISTS; E_NOT_SAME; E_NO_SPACE; E_NO_SUCH_FILE; E_QUOTA; E_READ_ONLY] []).
+Proof. exact (conj nsd_move_file_block__MPI_File_write_at_refuted (conj nsd_move_file_block__MPI_File_write_at_drops nsd_move_file_block__MPI_File_write_at_partial)). Qed.
+
+Lemma nsd_write_NC__MPI_File_write_at_all_1_refuted : ~ no_silent_drop link_sites (site_of "ncmpio_enddef.c:write_NC:MPI_File_write_at_all#1" io_sites).
+Proof. apply (refute_by_class (site_of "ncmpio_enddef.c:write_NC:MPI_File_write_at_all#1" io_sites) E_NO_SPACE). by_vm. Qed.
+
+Lemma nsd_write_NC__MPI_File_write_at_all_1_drops : drops_classes (site_of "ncmpio_enddef.c:write_NC:MPI_File_write_at_all#1" io_sites) [E_ACCESS; E_AMODE; E_BAD_FILE; E_FILE_EXISTS; E_NOT_SAME; E_NO_SPACE; E_NO_SUCH_FILE; E_QUOTA; E_READ_ONLY].
+Proof. apply drops_classes_intro; by_vm. Qed.
+
+Lemma nsd_write_NC__MPI_File_write_at_all_1_partial : no_silent_drop_except link_sites (site_of "ncmpio_enddef.c:write_NC:MPI_File_write_at_all#1" io_sites) [E_ACCESS; E_AMODE; E_BAD_FILE; E_FILE_EXISTS; E_NOT_SAME; E_NO_SPACE; E_NO_SUCH_FILE; E_QUOTA; E_READ_ONLY] [].
+Proof.
+  apply (no_silent_drop_except_nolinks_intro (site_of "ncmpio_enddef.c:write_NC:MPI_File_write_at_all#1" io_sites) [E_ACCESS; E_AMODE; E_BAD_FILE; E_FILE_EXISTS; E_NOT_SAME; E_NO_SPACE; E_NO_SUCH_FILE; E_QUOTA; E_READ_ONLY] (up_set "write_NC")); [by_vm | exact up_closed_write_NC | exact no_bad_link_above_write_NC].
+Qed.
+
+Lemma nsd_write_NC__MPI_File_write_at_all_1_refuted_and_partial :
+  (~ no_silent_drop link_sites (site_of "ncmpio_enddef.c:write_NC:MPI_File_write_at_all#1" io_sites)) /\
+  (drops_classes (site_of "ncmpio_enddef.c:write_NC:MPI_File_write_at_all#1" io_sites) [E_ACCESS; E_AMODE; E_BAD_FILE; E_FILE_EXISTS; E_NOT_SAME; E_NO_SPACE; E_NO_SUCH_FILE; E_QUOTA; E_READ_ONLY]) /\
+  (no_silent_drop_except link_sites (site_of "ncmpio_enddef.c:write_NC:MPI_File_write_at_all#1" io_sites) [E_ACCESS; E_AMODE; E_BAD_FILE; E_FILE_EXISTS; E_NOT_SAME; E_NO_SPACE; E_NO_SUCH_FILE; E_QUOTA; E_READ_ONLY] []).
+Proof. exact (conj nsd_write_NC__MPI_File_write_at_all_1_refuted (conj nsd_write_NC__MPI_File_write_at_all_1_drops nsd_write_NC__MPI_File_write_at_all_1_partial)). Qed.
+
+Lemma nsd_write_NC__MPI_File_write_at_refuted : ~ no_silent_drop link_sites (site_of "ncmpio_enddef.c:write_NC:MPI_File_write_at" io_sites).
+Proof. apply (refute_by_class (site_of "ncmpio_enddef.c:write_NC:MPI_File_write_at" io_sites) E_NO_SPACE). by_vm. Qed.
+
+Lemma nsd_write_NC__MPI_File_write_at_drops : drops_classes (site_of "ncmpio_enddef.c:write_NC:MPI_File_write_at" io_sites) [E_ACCESS; E_AMODE; E_BAD_FILE; E_FILE_EXISTS; E_NOT_SAME; E_NO_SPACE; E_NO_SUCH_FILE; E_QUOTA; E_READ_ONLY].
+Proof. apply drops_classes_intro; by_vm. Qed.
+
+Lemma nsd_write_NC__MPI_File_write_at_partial : no_silent_drop_except link_sites (site_of "ncmpio_enddef.c:write_NC:MPI_File_write_at" io_sites) [E_ACCESS; E_AMODE; E_BAD_FILE; E_FILE_EXISTS; E_NOT_SAME; E_NO_SPACE; E_NO_SUCH_FILE; E_QUOTA; E_READ_ONLY] [].
+Proof.
+  apply (no_silent_drop_except_nolinks_intro (site_of "ncmpio_enddef.c:write_NC:MPI_File_write_at" io_sites) [E_ACCESS; E_AMODE; E_BAD_FILE; E_FILE_EXISTS; E_NOT_SAME; E_NO_SPACE; E_NO_SUCH_FILE; E_QUOTA; E_READ_ONLY] (up_set "write_NC")); [by_vm | exact up_closed_write_NC | exact no_bad_link_above_write_NC].
+Qed.
+
+Lemma nsd_write_NC__MPI_File_write_at_refuted_and_partial :
+  (~ no_silent_drop link_sites (site_of "ncmpio_enddef.c:write_NC:MPI_File_write_at" io_sites)) /\
+  (drops_classes (site_of "ncmpio_enddef.c:write_NC:MPI_File_write_at" io_sites) [E_ACCESS; E_AMODE; E_BAD_FILE; E_FILE_EXISTS; E_NOT_SAME; E_NO_SPACE; E_NO_SUCH_FILE; E_QUOTA; E_READ_ONLY]) /\
+  (no_silent_drop_except link_sites (site_of "ncmpio_enddef.c:write_NC:MPI_File_write_at" io_sites) [E_ACCESS; E_AMODE; E_BAD_FILE; E_FILE_EXISTS; E_NOT_SAME; E_NO_SPACE; E_NO_SUCH_FILE; E_QUOTA; E_READ_ONLY] []).
+Proof. exact (conj nsd_write_NC__MPI_File_write_at_refuted (conj nsd_write_NC__MPI_File_write_at_drops nsd_write_NC__MPI_File_write_at_partial)). Qed.
+
+Lemma nsd_write_NC__MPI_File_write_at_all_2_refuted : ~ no_silent_drop link_sites (site_of "ncmpio_enddef.c:write_NC:MPI_File_write_at_all#2" io_sites).
+Proof. apply (refute_by_class (site_of "ncmpio_enddef.c:write_NC:MPI_File_write_at_all#2" io_sites) E_NO_SPACE). by_vm. Qed.
+
+Lemma nsd_write_NC__MPI_File_write_at_all_2_drops : drops_classes (site_of "ncmpio_enddef.c:write_NC:MPI_File_write_at_all#2" io_sites) [E_BUFFER; E_COUNT; E_TYPE; E_TAG; E_COMM; E_RANK; E_REQUEST; E_ROOT; E_GROUP; E_OP; E_TOPOLOGY; E_DIMS; E_ARG; E_UNKNOWN; E_TRUNCATE; E_OTHER; E_INTERN; E_IN_STATUS; E_PENDING; E_ACCESS; E_AMODE; E_ASSERT; E_BAD_FILE; E_BASE; E_CONVERSION; E_DISP; E_DUP_DATAREP; E_FILE_EXISTS; E_FILE_IN_USE; E_FILE; E_INFO_KEY; E_INFO_NOKEY; E_INFO_VALUE; E_INFO; E_IO; E_KEYVAL; E_LOCKTYPE; E_NAME; E_NO_MEM; E_NOT_SAME; E_NO_SPACE; E_NO_SUCH_FILE; E_PORT; E_QUOTA; E_READ_ONLY; E_RMA_CONFLICT; E_RMA_SYNC; E_SERVICE; E_SIZE; E_SPAWN; E_UNSUPPORTED_DATAREP; E_UNSUPPORTED_OPERATION; E_WIN; E_RMA_RANGE; E_RMA_ATTACH; E_RMA_FLAVOR; E_RMA_SHARED; E_ANY_OTHER_CLASS].
+Proof. apply drops_classes_intro; by_vm. Qed.
+
+Lemma nsd_write_NC__MPI_File_write_at_all_2_partial : no_silent_drop_except link_sites (site_of "ncmpio_enddef.c:write_NC:MPI_File_write_at_all#2" io_sites) [E_BUFFER; E_COUNT; E_TYPE; E_TAG; E_COMM; E_RANK; E_REQUEST; E_ROOT; E_GROUP; E_OP; E_TOPOLOGY; E_DIMS; E_ARG; E_UNKNOWN; E_TRUNCATE; E_OTHER; E_INTERN; E_IN_STATUS; E_PENDING; E_ACCESS; E_AMODE; E_ASSERT; E_BAD_FILE; E_BASE; E_CONVERSION; E_DISP; E_DUP_DATAREP; E_FILE_EXISTS; E_FILE_IN_USE; E_FILE; E_INFO_KEY; E_INFO_NOKEY; E_INFO_VALUE; E_INFO; E_IO; E_KEYVAL; E_LOCKTYPE; E_NAME; E_NO_MEM; E_NOT_SAME; E_NO_SPACE; E_NO_SUCH_FILE; E_PORT; E_QUOTA; E_READ_ONLY; E_RMA_CONFLICT; E_RMA_SYNC; E_SERVICE; E_SIZE; E_SPAWN; E_UNSUPPORTED_DATAREP; E_UNSUPPORTED_OPERATION; E_WIN; E_RMA_RANGE; E_RMA_ATTACH; E_RMA_FLAVOR; E_RMA_SHARED; E_ANY_OTHER_CLASS] [].
+Proof.
+  apply (no_silent_drop_except_nolinks_intro (site_of "ncmpio_enddef.c:write_NC:MPI_File_write_at_all#2" io_sites) [E_BUFFER; E_COUNT; E_TYPE; E_TAG; E_COMM; E_RANK; E_REQUEST; E_ROOT; E_GROUP; E_OP; E_TOPOLOGY; E_DIMS; E_ARG; E_UNKNOWN; E_TRUNCATE; E_OTHER; E_INTERN; E_IN_STATUS; E_PENDING; E_ACCESS; E_AMODE; E_ASSERT; E_BAD_FILE; E_BASE; E_CONVERSION; E_DISP; E_DUP_DATAREP; E_FILE_EXISTS; E_FILE_IN_USE; E_FILE; E_INFO_KEY; E_INFO_NOKEY; E_INFO_VALUE; E_INFO; E_IO; E_KEYVAL; E_LOCKTYPE; E_NAME; E_NO_MEM; E_NOT_SAME; E_NO_SPACE; E_NO_SUCH_FILE; E_PORT; E_QUOTA; E_READ_ONLY; E_RMA_CONFLICT; E_RMA_SYNC; E_SERVICE; E_SIZE; E_SPAWN; E_UNSUPPORTED_DATAREP; E_UNSUPPORTED_OPERATION; E_WIN; E_RMA_RANGE; E_RMA_ATTACH; E_RMA_FLAVOR; E_RMA_SHARED; E_ANY_OTHER_CLASS] (up_set "write_NC")); [by_vm | exact up_closed_write_NC | exact no_bad_link_above_write_NC].
+Qed.
+
+Lemma nsd_write_NC__MPI_File_write_at_all_2_refuted_and_partial :
+  (~ no_silent_drop link_sites (site_of "ncmpio_enddef.c:write_NC:MPI_File_write_at_all#2" io_sites)) /\
+  (drops_classes (site_of "ncmpio_enddef.c:write_NC:MPI_File_write_at_all#2" io_sites) [E_BUFFER; E_COUNT; E_TYPE; E_TAG; E_COMM; E_RANK; E_REQUEST; E_ROOT; E_GROUP; E_OP; E_TOPOLOGY; E_DIMS; E_ARG; E_UNKNOWN; E_TRUNCATE; E_OTHER; E_INTERN; E_IN_STATUS; E_PENDING; E_ACCESS; E_AMODE; E_ASSERT; E_BAD_FILE; E_BASE; E_CONVERSION; E_DISP; E_DUP_DATAREP; E_FILE_EXISTS; E_FILE_IN_USE; E_FILE; E_INFO_KEY; E_INFO_NOKEY; E_INFO_VALUE; E_INFO; E_IO; E_KEYVAL; E_LOCKTYPE; E_NAME; E_NO_MEM; E_NOT_SAME; E_NO_SPACE; E_NO_SUCH_FILE; E_PORT; E_QUOTA; E_READ_ONLY; E_RMA_CONFLICT; E_RMA_SYNC; E_SERVICE; E_SIZE; E_SPAWN; E_UNSUPPORTED_DATAREP; E_UNSUPPORTED_OPERATION; E_WIN; E_RMA_RANGE; E_RMA_ATTACH; E_RMA_FLAVOR; E_RMA_SHARED; E_ANY_OTHER_CLASS]) /\
+  (no_silent_drop_except link_sites (site_of "ncmpio_enddef.c:write_NC:MPI_File_write_at_all#2" io_sites) [E_BUFFER; E_COUNT; E_TYPE; E_TAG; E_COMM; E_RANK; E_REQUEST; E_ROOT; E_GROUP; E_OP; E_TOPOLOGY; E_DIMS; E_ARG; E_UNKNOWN; E_TRUNCATE; E_OTHER; E_INTERN; E_IN_STATUS; E_PENDING; E_ACCESS; E_AMODE; E_ASSERT; E_BAD_FILE; E_BASE; E_CONVERSION; E_DISP; E_DUP_DATAREP; E_FILE_EXISTS; E_FILE_IN_USE; E_FILE; E_INFO_KEY; E_INFO_NOKEY; E_INFO_VALUE; E_INFO; E_IO; E_KEYVAL; E_LOCKTYPE; E_NAME; E_NO_MEM; E_NOT_SAME; E_NO_SPACE; E_NO_SUCH_FILE; E_PORT; E_QUOTA; E_READ_ONLY; E_RMA_CONFLICT; E_RMA_SYNC; E_SERVICE; E_SIZE; E_SPAWN; E_UNSUPPORTED_DATAREP; E_UNSUPPORTED_OPERATION; E_WIN; E_RMA_RANGE; E_RMA_ATTACH; E_RMA_FLAVOR; E_RMA_SHARED; E_ANY_OTHER_CLASS] []).
+Proof. exact (conj nsd_write_NC__MPI_File_write_at_all_2_refuted (conj nsd_write_NC__MPI_File_write_at_all_2_drops nsd_write_NC__MPI_File_write_at_all_2_partial)). Qed.
+
+Lemma nsd_ncmpio_read_write__MPI_File_read_at_all_refuted : ~ no_silent_drop link_sites (site_of "ncmpio_file_io.c:ncmpio_read_write:MPI_File_read_at_all" io_sites).
+Proof.
+  apply (refute_by_link (site_of "ncmpio_file_io.c:ncmpio_read_write:MPI_File_read_at_all" io_sites) (sites_of ["ncmpio_intra_node.c:intra_node_aggregation:ncmpio_read_write"; "ncmpio_intra_node.c:ncmpio_intra_node_aggregation_nreqs:intra_node_aggregation"] link_sites) (site_of "ncmpio_wait.c:req_commit:ncmpio_intra_node_aggregation_nreqs" link_sites)).
+  - apply site_of_In; by_vm.
+  - by_vm.
+  - by_vm.
+  - apply sites_of_In; by_vm.
+Qed.
+
+Lemma nsd_ncmpio_read_write__MPI_File_read_at_all_partial : no_silent_drop_except link_sites (site_of "ncmpio_file_io.c:ncmpio_read_write:MPI_File_read_at_all" io_sites) [] bad_link_ids.
+Proof. apply no_silent_drop_except_intro; by_vm. Qed.
+
+Lemma nsd_ncmpio_read_write__MPI_File_read_at_all_refuted_and_partial :
+  (~ no_silent_drop link_sites (site_of "ncmpio_file_io.c:ncmpio_read_write:MPI_File_read_at_all" io_sites)) /\
+  (no_silent_drop_except link_sites (site_of "ncmpio_file_io.c:ncmpio_read_write:MPI_File_read_at_all" io_sites) [] bad_link_ids).
+Proof. exact (conj nsd_ncmpio_read_write__MPI_File_read_at_all_refuted nsd_ncmpio_read_write__MPI_File_read_at_all_partial). Qed.
+
+Lemma nsd_ncmpio_read_write__MPI_File_read_at_refuted : ~ no_silent_drop link_sites (site_of "ncmpio_file_io.c:ncmpio_read_write:MPI_File_read_at" io_sites).
+Proof.
+  apply (refute_by_link (site_of "ncmpio_file_io.c:ncmpio_read_write:MPI_File_read_at" io_sites) (sites_of ["ncmpio_intra_node.c:intra_node_aggregation:ncmpio_read_write"; "ncmpio_intra_node.c:ncmpio_intra_node_aggregation_nreqs:intra_node_aggregation"] link_sites) (site_of "ncmpio_wait.c:req_commit:ncmpio_intra_node_aggregation_nreqs" link_sites)).
+  - apply site_of_In; by_vm.
+  - by_vm.
+  - by_vm.
+  - apply sites_of_In; by_vm.
+Qed.
+
+Lemma nsd_ncmpio_read_write__MPI_File_read_at_partial : no_silent_drop_except link_sites (site_of "ncmpio_file_io.c:ncmpio_read_write:MPI_File_read_at" io_sites) [] bad_link_ids.
+Proof. apply no_silent_drop_except_intro; by_vm. Qed.
+
+Lemma nsd_ncmpio_read_write__MPI_File_read_at_refuted_and_partial :
+  (~ no_silent_drop link_sites (site_of "ncmpio_file_io.c:ncmpio_read_write:MPI_File_read_at" io_sites)) /\
+  (no_silent_drop_except link_sites (site_of "ncmpio_file_io.c:ncmpio_read_write:MPI_File_read_at" io_sites) [] bad_link_ids).
+Proof. exact (conj nsd_ncmpio_read_write__MPI_File_read_at_refuted nsd_ncmpio_read_write__MPI_File_read_at_partial). Qed.
+
+Lemma nsd_ncmpio_read_write__MPI_File_write_at_all_refuted : ~ no_silent_drop link_sites (site_of "ncmpio_file_io.c:ncmpio_read_write:MPI_File_write_at_all" io_sites).
+Proof.
+  apply (refute_by_link (site_of "ncmpio_file_io.c:ncmpio_read_write:MPI_File_write_at_all" io_sites) (sites_of ["ncmpio_intra_node.c:intra_node_aggregation:ncmpio_read_write"; "ncmpio_intra_node.c:ncmpio_intra_node_aggregation_nreqs:intra_node_aggregation"] link_sites) (site_of "ncmpio_wait.c:req_commit:ncmpio_intra_node_aggregation_nreqs" link_sites)).
+  - apply site_of_In; by_vm.
+  - by_vm.
+  - by_vm.
+  - apply sites_of_In; by_vm.
+Qed.
+
+Lemma nsd_ncmpio_read_write__MPI_File_write_at_all_partial : no_silent_drop_except link_sites (site_of "ncmpio_file_io.c:ncmpio_read_write:MPI_File_write_at_all" io_sites) [] bad_link_ids.
+Proof. apply no_silent_drop_except_intro; by_vm. Qed.
+
+Lemma nsd_ncmpio_read_write__MPI_File_write_at_all_refuted_and_partial :
+  (~ no_silent_drop link_sites (site_of "ncmpio_file_io.c:ncmpio_read_write:MPI_File_write_at_all" io_sites)) /\
+  (no_silent_drop_except link_sites (site_of "ncmpio_file_io.c:ncmpio_read_write:MPI_File_write_at_all" io_sites) [] bad_link_ids).
+Proof. exact (conj nsd_ncmpio_read_write__MPI_File_write_at_all_refuted nsd_ncmpio_read_write__MPI_File_write_at_all_partial). Qed.
+
+Lemma nsd_ncmpio_read_write__MPI_File_write_at_refuted : ~ no_silent_drop link_sites (site_of "ncmpio_file_io.c:ncmpio_read_write:MPI_File_write_at" io_sites).
+Proof.
+  apply (refute_by_link (site_of "ncmpio_file_io.c:ncmpio_read_write:MPI_File_write_at" io_sites) (sites_of ["ncmpio_intra_node.c:intra_node_aggregation:ncmpio_read_write"; "ncmpio_intra_node.c:ncmpio_intra_node_aggregation_nreqs:intra_node_aggregation"] link_sites) (site_of "ncmpio_wait.c:req_commit:ncmpio_intra_node_aggregation_nreqs" link_sites)).
+  - apply site_of_In; by_vm.
+  - by_vm.
+  - by_vm.
+  - apply sites_of_In; by_vm.
+Qed.
+
+Lemma nsd_ncmpio_read_write__MPI_File_write_at_partial : no_silent_drop_except link_sites (site_of "ncmpio_file_io.c:ncmpio_read_write:MPI_File_write_at" io_sites) [] bad_link_ids.
+Proof. apply no_silent_drop_except_intro; by_vm. Qed.
+
+Lemma nsd_ncmpio_read_write__MPI_File_write_at_refuted_and_partial :
+  (~ no_silent_drop link_sites (site_of "ncmpio_file_io.c:ncmpio_read_write:MPI_File_write_at" io_sites)) /\
+  (no_silent_drop_except link_sites (site_of "ncmpio_file_io.c:ncmpio_read_write:MPI_File_write_at" io_sites) [] bad_link_ids).
+Proof. exact (conj nsd_ncmpio_read_write__MPI_File_write_at_refuted nsd_ncmpio_read_write__MPI_File_write_at_partial). Qed.
+
+Lemma nsd_fill_var_rec__MPI_File_write_at_all : no_silent_drop link_sites (site_of "ncmpio_fill.c:fill_var_rec:MPI_File_write_at_all" io_sites).
+Proof.
+  apply (no_silent_drop_intro (site_of "ncmpio_fill.c:fill_var_rec:MPI_File_write_at_all" io_sites) (up_set "fill_var_rec")); [by_vm | exact up_closed_fill_var_rec | exact no_bad_link_above_fill_var_rec].
+Qed.
+
+Lemma nsd_fill_var_rec__MPI_File_write_at : no_silent_drop link_sites (site_of "ncmpio_fill.c:fill_var_rec:MPI_File_write_at" io_sites).
+Proof.
+  apply (no_silent_drop_intro (site_of "ncmpio_fill.c:fill_var_rec:MPI_File_write_at" io_sites) (up_set "fill_var_rec")); [by_vm | exact up_closed_fill_var_rec | exact no_bad_link_above_fill_var_rec].
+Qed.
+
+Lemma nsd_fillerup_aggregate__MPI_File_write_at_all_refuted : ~ no_silent_drop link_sites (site_of "ncmpio_fill.c:fillerup_aggregate:MPI_File_write_at_all" io_sites).
+Proof. apply (refute_by_class (site_of "ncmpio_fill.c:fillerup_aggregate:MPI_File_write_at_all" io_sites) E_NO_SPACE). by_vm. Qed.
+
+Lemma nsd_fillerup_aggregate__MPI_File_write_at_all_drops : drops_classes (site_of "ncmpio_fill.c:fillerup_aggregate:MPI_File_write_at_all" io_sites) [E_BUFFER; E_COUNT; E_TYPE; E_TAG; E_COMM; E_RANK; E_REQUEST; E_ROOT; E_GROUP; E_OP; E_TOPOLOGY; E_DIMS; E_ARG; E_UNKNOWN; E_TRUNCATE; E_OTHER; E_INTERN; E_IN_STATUS; E_PENDING; E_ACCESS; E_AMODE; E_ASSERT; E_BAD_FILE; E_BASE; E_CONVERSION; E_DISP; E_DUP_DATAREP; E_FILE_EXISTS; E_FILE_IN_USE; E_FILE; E_INFO_KEY; E_INFO_NOKEY; E_INFO_VALUE; E_INFO; E_IO; E_KEYVAL; E_LOCKTYPE; E_NAME; E_NO_MEM; E_NOT_SAME; E_NO_SPACE; E_NO_SUCH_FILE; E_PORT; E_QUOTA; E_READ_ONLY; E_RMA_CONFLICT; E_RMA_SYNC; E_SERVICE; E_SIZE; E_SPAWN; E_UNSUPPORTED_DATAREP; E_UNSUPPORTED_OPERATION; E_WIN; E_RMA_RANGE; E_RMA_ATTACH; E_RMA_FLAVOR; E_RMA_SHARED; E_ANY_OTHER_CLASS].
+Proof. apply drops_classes_intro; by_vm. Qed.
+
+Lemma nsd_fillerup_aggregate__MPI_File_write_at_all_partial : no_silent_drop_except link_sites (site_of "ncmpio_fill.c:fillerup_aggregate:MPI_File_write_at_all" io_sites) [E_BUFFER; E_COUNT; E_TYPE; E_TAG; E_COMM; E_RANK; E_REQUEST; E_ROOT; E_GROUP; E_OP; E_TOPOLOGY; E_DIMS; E_ARG; E_UNKNOWN; E_TRUNCATE; E_OTHER; E_INTERN; E_IN_STATUS; E_PENDING; E_ACCESS; E_AMODE; E_ASSERT; E_BAD_FILE; E_BASE; E_CONVERSION; E_DISP; E_DUP_DATAREP; E_FILE_EXISTS; E_FILE_IN_USE; E_FILE; E_INFO_KEY; E_INFO_NOKEY; E_INFO_VALUE; E_INFO; E_IO; E_KEYVAL; E_LOCKTYPE; E_NAME; E_NO_MEM; E_NOT_SAME; E_NO_SPACE; E_NO_SUCH_FILE; E_PORT; E_QUOTA; E_READ_ONLY; E_RMA_CONFLICT; E_RMA_SYNC; E_SERVICE; E_SIZE; E_SPAWN; E_UNSUPPORTED_DATAREP; E_UNSUPPORTED_OPERATION; E_WIN; E_RMA_RANGE; E_RMA_ATTACH; E_RMA_FLAVOR; E_RMA_SHARED; E_ANY_OTHER_CLASS] [].
+Proof.
+  apply (no_silent_drop_except_nolinks_intro (site_of "ncmpio_fill.c:fillerup_aggregate:MPI_File_write_at_all" io_sites) [E_BUFFER; E_COUNT; E_TYPE; E_TAG; E_COMM; E_RANK; E_REQUEST; E_ROOT; E_GROUP; E_OP; E_TOPOLOGY; E_DIMS; E_ARG; E_UNKNOWN; E_TRUNCATE; E_OTHER; E_INTERN; E_IN_STATUS; E_PENDING; E_ACCESS; E_AMODE; E_ASSERT; E_BAD_FILE; E_BASE; E_CONVERSION; E_DISP; E_DUP_DATAREP; E_FILE_EXISTS; E_FILE_IN_USE; E_FILE; E_INFO_KEY; E_INFO_NOKEY; E_INFO_VALUE; E_INFO; E_IO; E_KEYVAL; E_LOCKTYPE; E_NAME; E_NO_MEM; E_NOT_SAME; E_NO_SPACE; E_NO_SUCH_FILE; E_PORT; E_QUOTA; E_READ_ONLY; E_RMA_CONFLICT; E_RMA_SYNC; E_SERVICE; E_SIZE; E_SPAWN; E_UNSUPPORTED_DATAREP; E_UNSUPPORTED_OPERATION; E_WIN; E_RMA_RANGE; E_RMA_ATTACH; E_RMA_FLAVOR; E_RMA_SHARED; E_ANY_OTHER_CLASS] (up_set "fillerup_aggregate")); [by_vm | exact up_closed_fillerup_aggregate | exact no_bad_link_above_fillerup_aggregate].
+Qed.
+
+Lemma nsd_fillerup_aggregate__MPI_File_write_at_all_refuted_and_partial :
+  (~ no_silent_drop link_sites (site_of "ncmpio_fill.c:fillerup_aggregate:MPI_File_write_at_all" io_sites)) /\
+  (drops_classes (site_of "ncmpio_fill.c:fillerup_aggregate:MPI_File_write_at_all" io_sites) [E_BUFFER; E_COUNT; E_TYPE; E_TAG; E_COMM; E_RANK; E_REQUEST; E_ROOT; E_GROUP; E_OP; E_TOPOLOGY; E_DIMS; E_ARG; E_UNKNOWN; E_TRUNCATE; E_OTHER; E_INTERN; E_IN_STATUS; E_PENDING; E_ACCESS; E_AMODE; E_ASSERT; E_BAD_FILE; E_BASE; E_CONVERSION; E_DISP; E_DUP_DATAREP; E_FILE_EXISTS; E_FILE_IN_USE; E_FILE; E_INFO_KEY; E_INFO_NOKEY; E_INFO_VALUE; E_INFO; E_IO; E_KEYVAL; E_LOCKTYPE; E_NAME; E_NO_MEM; E_NOT_SAME; E_NO_SPACE; E_NO_SUCH_FILE; E_PORT; E_QUOTA; E_READ_ONLY; E_RMA_CONFLICT; E_RMA_SYNC; E_SERVICE; E_SIZE; E_SPAWN; E_UNSUPPORTED_DATAREP; E_UNSUPPORTED_OPERATION; E_WIN; E_RMA_RANGE; E_RMA_ATTACH; E_RMA_FLAVOR; E_RMA_SHARED; E_ANY_OTHER_CLASS]) /\
+  (no_silent_drop_except link_sites (site_of "ncmpio_fill.c:fillerup_aggregate:MPI_File_write_at_all" io_sites) [E_BUFFER; E_COUNT; E_TYPE; E_TAG; E_COMM; E_RANK; E_REQUEST; E_ROOT; E_GROUP; E_OP; E_TOPOLOGY; E_DIMS; E_ARG; E_UNKNOWN; E_TRUNCATE; E_OTHER; E_INTERN; E_IN_STATUS; E_PENDING; E_ACCESS; E_AMODE; E_ASSERT; E_BAD_FILE; E_BASE; E_CONVERSION; E_DISP; E_DUP_DATAREP; E_FILE_EXISTS; E_FILE_IN_USE; E_FILE; E_INFO_KEY; E_INFO_NOKEY; E_INFO_VALUE; E_INFO; E_IO; E_KEYVAL; E_LOCKTYPE; E_NAME; E_NO_MEM; E_NOT_SAME; E_NO_SPACE; E_NO_SUCH_FILE; E_PORT; E_QUOTA; E_READ_ONLY; E_RMA_CONFLICT; E_RMA_SYNC; E_SERVICE; E_SIZE; E_SPAWN; E_UNSUPPORTED_DATAREP; E_UNSUPPORTED_OPERATION; E_WIN; E_RMA_RANGE; E_RMA_ATTACH; E_RMA_FLAVOR; E_RMA_SHARED; E_ANY_OTHER_CLASS] []).
+Proof. exact (conj nsd_fillerup_aggregate__MPI_File_write_at_all_refuted (conj nsd_fillerup_aggregate__MPI_File_write_at_all_drops nsd_fillerup_aggregate__MPI_File_write_at_all_partial)). Qed.
+
+Lemma nsd_fillerup_aggregate__MPI_File_write_at_refuted : ~ no_silent_drop link_sites (site_of "ncmpio_fill.c:fillerup_aggregate:MPI_File_write_at" io_sites).
+Proof. apply (refute_by_class (site_of "ncmpio_fill.c:fillerup_aggregate:MPI_File_write_at" io_sites) E_NO_SPACE). by_vm. Qed.
+
+Lemma nsd_fillerup_aggregate__MPI_File_write_at_drops : drops_classes (site_of "ncmpio_fill.c:fillerup_aggregate:MPI_File_write_at" io_sites) [E_BUFFER; E_COUNT; E_TYPE; E_TAG; E_COMM; E_RANK; E_REQUEST; E_ROOT; E_GROUP; E_OP; E_TOPOLOGY; E_DIMS; E_ARG; E_UNKNOWN; E_TRUNCATE; E_OTHER; E_INTERN; E_IN_STATUS; E_PENDING; E_ACCESS; E_AMODE; E_ASSERT; E_BAD_FILE; E_BASE; E_CONVERSION; E_DISP; E_DUP_DATAREP; E_FILE_EXISTS; E_FILE_IN_USE; E_FILE; E_INFO_KEY; E_INFO_NOKEY; E_INFO_VALUE; E_INFO; E_IO; E_KEYVAL; E_LOCKTYPE; E_NAME; E_NO_MEM; E_NOT_SAME; E_NO_SPACE; E_NO_SUCH_FILE; E_PORT; E_QUOTA; E_READ_ONLY; E_RMA_CONFLICT; E_RMA_SYNC; E_SERVICE; E_SIZE; E_SPAWN; E_UNSUPPORTED_DATAREP; E_UNSUPPORTED_OPERATION; E_WIN; E_RMA_RANGE; E_RMA_ATTACH; E_RMA_FLAVOR; E_RMA_SHARED; E_ANY_OTHER_CLASS].
+Proof. apply drops_classes_intro; by_vm. Qed.
+
+Lemma nsd_fillerup_aggregate__MPI_File_write_at_partial : no_silent_drop_except link_sites (site_of "ncmpio_fill.c:fillerup_aggregate:MPI_File_write_at" io_sites) [E_BUFFER; E_COUNT; E_TYPE; E_TAG; E_COMM; E_RANK; E_REQUEST; E_ROOT; E_GROUP; E_OP; E_TOPOLOGY; E_DIMS; E_ARG; E_UNKNOWN; E_TRUNCATE; E_OTHER; E_INTERN; E_IN_STATUS; E_PENDING; E_ACCESS; E_AMODE; E_ASSERT; E_BAD_FILE; E_BASE; E_CONVERSION; E_DISP; E_DUP_DATAREP; E_FILE_EXISTS; E_FILE_IN_USE; E_FILE; E_INFO_KEY; E_INFO_NOKEY; E_INFO_VALUE; E_INFO; E_IO; E_KEYVAL; E_LOCKTYPE; E_NAME; E_NO_MEM; E_NOT_SAME; E_NO_SPACE; E_NO_SUCH_FILE; E_PORT; E_QUOTA; E_READ_ONLY; E_RMA_CONFLICT; E_RMA_SYNC; E_SERVICE; E_SIZE; E_SPAWN; E_UNSUPPORTED_DATAREP; E_UNSUPPORTED_OPERATION; E_WIN; E_RMA_RANGE; E_RMA_ATTACH; E_RMA_FLAVOR; E_RMA_SHARED; E_ANY_OTHER_CLASS] [].
+Proof.
+  apply (no_silent_drop_except_nolinks_intro (site_of "ncmpio_fill.c:fillerup_aggregate:MPI_File_write_at" io_sites) [E_BUFFER; E_COUNT; E_TYPE; E_TAG; E_COMM; E_RANK; E_REQUEST; E_ROOT; E_GROUP; E_OP; E_TOPOLOGY; E_DIMS; E_ARG; E_UNKNOWN; E_TRUNCATE; E_OTHER; E_INTERN; E_IN_STATUS; E_PENDING; E_ACCESS; E_AMODE; E_ASSERT; E_BAD_FILE; E_BASE; E_CONVERSION; E_DISP; E_DUP_DATAREP; E_FILE_EXISTS; E_FILE_IN_USE; E_FILE; E_INFO_KEY; E_INFO_NOKEY; E_INFO_VALUE; E_INFO; E_IO; E_KEYVAL; E_LOCKTYPE; E_NAME; E_NO_MEM; E_NOT_SAME; E_NO_SPACE; E_NO_SUCH_FILE; E_PORT; E_QUOTA; E_READ_ONLY; E_RMA_CONFLICT; E_RMA_SYNC; E_SERVICE; E_SIZE; E_SPAWN; E_UNSUPPORTED_DATAREP; E_UNSUPPORTED_OPERATION; E_WIN; E_RMA_RANGE; E_RMA_ATTACH; E_RMA_FLAVOR; E_RMA_SHARED; E_ANY_OTHER_CLASS] (up_set "fillerup_aggregate")); [by_vm | exact up_closed_fillerup_aggregate | exact no_bad_link_above_fillerup_aggregate].
+Qed.
+
+Lemma nsd_fillerup_aggregate__MPI_File_write_at_refuted_and_partial :
+  (~ no_silent_drop link_sites (site_of "ncmpio_fill.c:fillerup_aggregate:MPI_File_write_at" io_sites)) /\
+  (drops_classes (site_of "ncmpio_fill.c:fillerup_aggregate:MPI_File_write_at" io_sites) [E_BUFFER; E_COUNT; E_TYPE; E_TAG; E_COMM; E_RANK; E_REQUEST; E_ROOT; E_GROUP; E_OP; E_TOPOLOGY; E_DIMS; E_ARG; E_UNKNOWN; E_TRUNCATE; E_OTHER; E_INTERN; E_IN_STATUS; E_PENDING; E_ACCESS; E_AMODE; E_ASSERT; E_BAD_FILE; E_BASE; E_CONVERSION; E_DISP; E_DUP_DATAREP; E_FILE_EXISTS; E_FILE_IN_USE; E_FILE; E_INFO_KEY; E_INFO_NOKEY; E_INFO_VALUE; E_INFO; E_IO; E_KEYVAL; E_LOCKTYPE; E_NAME; E_NO_MEM; E_NOT_SAME; E_NO_SPACE; E_NO_SUCH_FILE; E_PORT; E_QUOTA; E_READ_ONLY; E_RMA_CONFLICT; E_RMA_SYNC; E_SERVICE; E_SIZE; E_SPAWN; E_UNSUPPORTED_DATAREP; E_UNSUPPORTED_OPERATION; E_WIN; E_RMA_RANGE; E_RMA_ATTACH; E_RMA_FLAVOR; E_RMA_SHARED; E_ANY_OTHER_CLASS]) /\
+  (no_silent_drop_except link_sites (site_of "ncmpio_fill.c:fillerup_aggregate:MPI_File_write_at" io_sites) [E_BUFFER; E_COUNT; E_TYPE; E_TAG; E_COMM; E_RANK; E_REQUEST; E_ROOT; E_GROUP; E_OP; E_TOPOLOGY; E_DIMS; E_ARG; E_UNKNOWN; E_TRUNCATE; E_OTHER; E_INTERN; E_IN_STATUS; E_PENDING; E_ACCESS; E_AMODE; E_ASSERT; E_BAD_FILE; E_BASE; E_CONVERSION; E_DISP; E_DUP_DATAREP; E_FILE_EXISTS; E_FILE_IN_USE; E_FILE; E_INFO_KEY; E_INFO_NOKEY; E_INFO_VALUE; E_INFO; E_IO; E_KEYVAL; E_LOCKTYPE; E_NAME; E_NO_MEM; E_NOT_SAME; E_NO_SPACE; E_NO_SUCH_FILE; E_PORT; E_QUOTA; E_READ_ONLY; E_RMA_CONFLICT; E_RMA_SYNC; E_SERVICE; E_SIZE; E_SPAWN; E_UNSUPPORTED_DATAREP; E_UNSUPPORTED_OPERATION; E_WIN; E_RMA_RANGE; E_RMA_ATTACH; E_RMA_FLAVOR; E_RMA_SHARED; E_ANY_OTHER_CLASS] []).
+Proof. exact (conj nsd_fillerup_aggregate__MPI_File_write_at_refuted (conj nsd_fillerup_aggregate__MPI_File_write_at_drops nsd_fillerup_aggregate__MPI_File_write_at_partial)). Qed.
+
+Lemma nsd_hdr_fetch__MPI_File_read_at_all_1_refuted : ~ no_silent_drop link_sites (site_of "ncmpio_header_get.c:hdr_fetch:MPI_File_read_at_all#1" io_sites).
+Proof.
+  apply (refute_by_link (site_of "ncmpio_header_get.c:hdr_fetch:MPI_File_read_at_all#1" io_sites) (sites_of ["ncmpio_header_get.c:hdr_get_uint32:hdr_fetch"] link_sites) (site_of "ncmpio_header_get.c:hdr_get_NC_var:hdr_get_uint32#2" link_sites)).
+  - apply site_of_In; by_vm.
+  - by_vm.
+  - by_vm.
+  - apply sites_of_In; by_vm.
+Qed.
+
+Lemma nsd_hdr_fetch__MPI_File_read_at_all_1_partial : no_silent_drop_except link_sites (site_of "ncmpio_header_get.c:hdr_fetch:MPI_File_read_at_all#1" io_sites) [] bad_link_ids.
+Proof. apply no_silent_drop_except_intro; by_vm. Qed.
+
+Lemma nsd_hdr_fetch__MPI_File_read_at_all_1_refuted_and_partial :
+  (~ no_silent_drop link_sites (site_of "ncmpio_header_get.c:hdr_fetch:MPI_File_read_at_all#1" io_sites)) /\
+  (no_silent_drop_except link_sites (site_of "ncmpio_header_get.c:hdr_fetch:MPI_File_read_at_all#1" io_sites) [] bad_link_ids).
+Proof. exact (conj nsd_hdr_fetch__MPI_File_read_at_all_1_refuted nsd_hdr_fetch__MPI_File_read_at_all_1_partial). Qed.
+
+Lemma nsd_hdr_fetch__MPI_File_read_at_refuted : ~ no_silent_drop link_sites (site_of "ncmpio_header_get.c:hdr_fetch:MPI_File_read_at" io_sites).
+Proof.
+  apply (refute_by_link (site_of "ncmpio_header_get.c:hdr_fetch:MPI_File_read_at" io_sites) (sites_of ["ncmpio_header_get.c:hdr_get_uint32:hdr_fetch"] link_sites) (site_of "ncmpio_header_get.c:hdr_get_NC_var:hdr_get_uint32#2" link_sites)).
+  - apply site_of_In; by_vm.
+  - by_vm.
+  - by_vm.
+  - apply sites_of_In; by_vm.
+Qed.
+
+Lemma nsd_hdr_fetch__MPI_File_read_at_partial : no_silent_drop_except link_sites (site_of "ncmpio_header_get.c:hdr_fetch:MPI_File_read_at" io_sites) [] bad_link_ids.
+Proof. apply no_silent_drop_except_intro; by_vm. Qed.
+
+Lemma nsd_hdr_fetch__MPI_File_read_at_refuted_and_partial :
+  (~ no_silent_drop link_sites (site_of "ncmpio_header_get.c:hdr_fetch:MPI_File_read_at" io_sites)) /\
+  (no_silent_drop_except link_sites (site_of "ncmpio_header_get.c:hdr_fetch:MPI_File_read_at" io_sites) [] bad_link_ids).
+Proof. exact (conj nsd_hdr_fetch__MPI_File_read_at_refuted nsd_hdr_fetch__MPI_File_read_at_partial). Qed.
+
+Lemma nsd_hdr_fetch__MPI_File_read_at_all_2_refuted : ~ no_silent_drop link_sites (site_of "ncmpio_header_get.c:hdr_fetch:MPI_File_read_at_all#2" io_sites).
+Proof. apply (refute_by_class (site_of "ncmpio_header_get.c:hdr_fetch:MPI_File_read_at_all#2" io_sites) E_NO_SPACE). by_vm. Qed.
+
+Lemma nsd_hdr_fetch__MPI_File_read_at_all_2_drops : drops_classes (site_of "ncmpio_header_get.c:hdr_fetch:MPI_File_read_at_all#2" io_sites) [E_BUFFER; E_COUNT; E_TYPE; E_TAG; E_COMM; E_RANK; E_REQUEST; E_ROOT; E_GROUP; E_OP; E_TOPOLOGY; E_DIMS; E_ARG; E_UNKNOWN; E_TRUNCATE; E_OTHER; E_INTERN; E_IN_STATUS; E_PENDING; E_ACCESS; E_AMODE; E_ASSERT; E_BAD_FILE; E_BASE; E_CONVERSION; E_DISP; E_DUP_DATAREP; E_FILE_EXISTS; E_FILE_IN_USE; E_FILE; E_INFO_KEY; E_INFO_NOKEY; E_INFO_VALUE; E_INFO; E_IO; E_KEYVAL; E_LOCKTYPE; E_NAME; E_NO_MEM; E_NOT_SAME; E_NO_SPACE; E_NO_SUCH_FILE; E_PORT; E_QUOTA; E_READ_ONLY; E_RMA_CONFLICT; E_RMA_SYNC; E_SERVICE; E_SIZE; E_SPAWN; E_UNSUPPORTED_DATAREP; E_UNSUPPORTED_OPERATION; E_WIN; E_RMA_RANGE; E_RMA_ATTACH; E_RMA_FLAVOR; E_RMA_SHARED; E_ANY_OTHER_CLASS].
+Proof. apply drops_classes_intro; by_vm. Qed.
+
+Lemma nsd_hdr_fetch__MPI_File_read_at_all_2_partial : no_silent_drop_except link_sites (site_of "ncmpio_header_get.c:hdr_fetch:MPI_File_read_at_all#2" io_sites) [E_BUFFER; E_COUNT; E_TYPE; E_TAG; E_COMM; E_RANK; E_REQUEST; E_ROOT; E_GROUP; E_OP; E_TOPOLOGY; E_DIMS; E_ARG; E_UNKNOWN; E_TRUNCATE; E_OTHER; E_INTERN; E_IN_STATUS; E_PENDING; E_ACCESS; E_AMODE; E_ASSERT; E_BAD_FILE; E_BASE; E_CONVERSION; E_DISP; E_DUP_DATAREP; E_FILE_EXISTS; E_FILE_IN_USE; E_FILE; E_INFO_KEY; E_INFO_NOKEY; E_INFO_VALUE; E_INFO; E_IO; E_KEYVAL; E_LOCKTYPE; E_NAME; E_NO_MEM; E_NOT_SAME; E_NO_SPACE; E_NO_SUCH_FILE; E_PORT; E_QUOTA; E_READ_ONLY; E_RMA_CONFLICT; E_RMA_SYNC; E_SERVICE; E_SIZE; E_SPAWN; E_UNSUPPORTED_DATAREP; E_UNSUPPORTED_OPERATION; E_WIN; E_RMA_RANGE; E_RMA_ATTACH; E_RMA_FLAVOR; E_RMA_SHARED; E_ANY_OTHER_CLASS] bad_link_ids.
+Proof. apply no_silent_drop_except_intro; by_vm. Qed.
+
+Lemma nsd_hdr_fetch__MPI_File_read_at_all_2_refuted_and_partial :
+  (~ no_silent_drop link_sites (site_of "ncmpio_header_get.c:hdr_fetch:MPI_File_read_at_all#2" io_sites)) /\
+  (drops_classes (site_of "ncmpio_header_get.c:hdr_fetch:MPI_File_read_at_all#2" io_sites) [E_BUFFER; E_COUNT; E_TYPE; E_TAG; E_COMM; E_RANK; E_REQUEST; E_ROOT; E_GROUP; E_OP; E_TOPOLOGY; E_DIMS; E_ARG; E_UNKNOWN; E_TRUNCATE; E_OTHER; E_INTERN; E_IN_STATUS; E_PENDING; E_ACCESS; E_AMODE; E_ASSERT; E_BAD_FILE; E_BASE; E_CONVERSION; E_DISP; E_DUP_DATAREP; E_FILE_EXISTS; E_FILE_IN_USE; E_FILE; E_INFO_KEY; E_INFO_NOKEY; E_INFO_VALUE; E_INFO; E_IO; E_KEYVAL; E_LOCKTYPE; E_NAME; E_NO_MEM; E_NOT_SAME; E_NO_SPACE; E_NO_SUCH_FILE; E_PORT; E_QUOTA; E_READ_ONLY; E_RMA_CONFLICT; E_RMA_SYNC; E_SERVICE; E_SIZE; E_SPAWN; E_UNSUPPORTED_DATAREP; E_UNSUPPORTED_OPERATION; E_WIN; E_RMA_RANGE; E_RMA_ATTACH; E_RMA_FLAVOR; E_RMA_SHARED; E_ANY_OTHER_CLASS]) /\
+  (no_silent_drop_except link_sites (site_of "ncmpio_header_get.c:hdr_fetch:MPI_File_read_at_all#2" io_sites) [E_BUFFER; E_COUNT; E_TYPE; E_TAG; E_COMM; E_RANK; E_REQUEST; E_ROOT; E_GROUP; E_OP; E_TOPOLOGY; E_DIMS; E_ARG; E_UNKNOWN; E_TRUNCATE; E_OTHER; E_INTERN; E_IN_STATUS; E_PENDING; E_ACCESS; E_AMODE; E_ASSERT; E_BAD_FILE; E_BASE; E_CONVERSION; E_DISP; E_DUP_DATAREP; E_FILE_EXISTS; E_FILE_IN_USE; E_FILE; E_INFO_KEY; E_INFO_NOKEY; E_INFO_VALUE; E_INFO; E_IO; E_KEYVAL; E_LOCKTYPE; E_NAME; E_NO_MEM; E_NOT_SAME; E_NO_SPACE; E_NO_SUCH_FILE; E_PORT; E_QUOTA; E_READ_ONLY; E_RMA_CONFLICT; E_RMA_SYNC; E_SERVICE; E_SIZE; E_SPAWN; E_UNSUPPORTED_DATAREP; E_UNSUPPORTED_OPERATION; E_WIN; E_RMA_RANGE; E_RMA_ATTACH; E_RMA_FLAVOR; E_RMA_SHARED; E_ANY_OTHER_CLASS] bad_link_ids).
+Proof. exact (conj nsd_hdr_fetch__MPI_File_read_at_all_2_refuted (conj nsd_hdr_fetch__MPI_File_read_at_all_2_drops nsd_hdr_fetch__MPI_File_read_at_all_2_partial)). Qed.
+
+Lemma nsd_ncmpio_write_header__MPI_File_write_at_all_1 : no_silent_drop link_sites (site_of "ncmpio_header_put.c:ncmpio_write_header:MPI_File_write_at_all#1" io_sites).
+Proof.
+  apply (no_silent_drop_intro (site_of "ncmpio_header_put.c:ncmpio_write_header:MPI_File_write_at_all#1" io_sites) (up_set "ncmpio_write_header")); [by_vm | exact up_closed_ncmpio_write_header | exact no_bad_link_above_ncmpio_write_header].
+Qed.
+
+Lemma nsd_ncmpio_write_header__MPI_File_write_at : no_silent_drop link_sites (site_of "ncmpio_header_put.c:ncmpio_write_header:MPI_File_write_at" io_sites).
+Proof.
+  apply (no_silent_drop_intro (site_of "ncmpio_header_put.c:ncmpio_write_header:MPI_File_write_at" io_sites) (up_set "ncmpio_write_header")); [by_vm | exact up_closed_ncmpio_write_header | exact no_bad_link_above_ncmpio_write_header].
+Qed.
+
+Lemma nsd_ncmpio_write_header__MPI_File_write_at_all_2_refuted : ~ no_silent_drop link_sites (site_of "ncmpio_header_put.c:ncmpio_write_header:MPI_File_write_at_all#2" io_sites).
+Proof. apply (refute_by_class (site_of "ncmpio_header_put.c:ncmpio_write_header:MPI_File_write_at_all#2" io_sites) E_NO_SPACE). by_vm. Qed.
+
+Lemma nsd_ncmpio_write_header__MPI_File_write_at_all_2_drops : drops_classes (site_of "ncmpio_header_put.c:ncmpio_write_header:MPI_File_write_at_all#2" io_sites) [E_BUFFER; E_COUNT; E_TYPE; E_TAG; E_COMM; E_RANK; E_REQUEST; E_ROOT; E_GROUP; E_OP; E_TOPOLOGY; E_DIMS; E_ARG; E_UNKNOWN; E_TRUNCATE; E_OTHER; E_INTERN; E_IN_STATUS; E_PENDING; E_ACCESS; E_AMODE; E_ASSERT; E_BAD_FILE; E_BASE; E_CONVERSION; E_DISP; E_DUP_DATAREP; E_FILE_EXISTS; E_FILE_IN_USE; E_FILE; E_INFO_KEY; E_INFO_NOKEY; E_INFO_VALUE; E_INFO; E_IO; E_KEYVAL; E_LOCKTYPE; E_NAME; E_NO_MEM; E_NOT_SAME; E_NO_SPACE; E_NO_SUCH_FILE; E_PORT; E_QUOTA; E_READ_ONLY; E_RMA_CONFLICT; E_RMA_SYNC; E_SERVICE; E_SIZE; E_SPAWN; E_UNSUPPORTED_DATAREP; E_UNSUPPORTED_OPERATION; E_WIN; E_RMA_RANGE; E_RMA_ATTACH; E_RMA_FLAVOR; E_RMA_SHARED; E_ANY_OTHER_CLASS].
+Proof. apply drops_classes_intro; by_vm. Qed.
+
+Lemma nsd_ncmpio_write_header__MPI_File_write_at_all_2_partial : no_silent_drop_except link_sites (site_of "ncmpio_header_put.c:ncmpio_write_header:MPI_File_write_at_all#2" io_sites) [E_BUFFER; E_COUNT; E_TYPE; E_TAG; E_COMM; E_RANK; E_REQUEST; E_ROOT; E_GROUP; E_OP; E_TOPOLOGY; E_DIMS; E_ARG; E_UNKNOWN; E_TRUNCATE; E_OTHER; E_INTERN; E_IN_STATUS; E_PENDING; E_ACCESS; E_AMODE; E_ASSERT; E_BAD_FILE; E_BASE; E_CONVERSION; E_DISP; E_DUP_DATAREP; E_FILE_EXISTS; E_FILE_IN_USE; E_FILE; E_INFO_KEY; E_INFO_NOKEY; E_INFO_VALUE; E_INFO; E_IO; E_KEYVAL; E_LOCKTYPE; E_NAME; E_NO_MEM; E_NOT_SAME; E_NO_SPACE; E_NO_SUCH_FILE; E_PORT; E_QUOTA; E_READ_ONLY; E_RMA_CONFLICT; E_RMA_SYNC; E_SERVICE; E_SIZE; E_SPAWN; E_UNSUPPORTED_DATAREP; E_UNSUPPORTED_OPERATION; E_WIN; E_RMA_RANGE; E_RMA_ATTACH; E_RMA_FLAVOR; E_RMA_SHARED; E_ANY_OTHER_CLASS] [].
+Proof.
+  apply (no_silent_drop_except_nolinks_intro (site_of "ncmpio_header_put.c:ncmpio_write_header:MPI_File_write_at_all#2" io_sites) [E_BUFFER; E_COUNT; E_TYPE; E_TAG; E_COMM; E_RANK; E_REQUEST; E_ROOT; E_GROUP; E_OP; E_TOPOLOGY; E_DIMS; E_ARG; E_UNKNOWN; E_TRUNCATE; E_OTHER; E_INTERN; E_IN_STATUS; E_PENDING; E_ACCESS; E_AMODE; E_ASSERT; E_BAD_FILE; E_BASE; E_CONVERSION; E_DISP; E_DUP_DATAREP; E_FILE_EXISTS; E_FILE_IN_USE; E_FILE; E_INFO_KEY; E_INFO_NOKEY; E_INFO_VALUE; E_INFO; E_IO; E_KEYVAL; E_LOCKTYPE; E_NAME; E_NO_MEM; E_NOT_SAME; E_NO_SPACE; E_NO_SUCH_FILE; E_PORT; E_QUOTA; E_READ_ONLY; E_RMA_CONFLICT; E_RMA_SYNC; E_SERVICE; E_SIZE; E_SPAWN; E_UNSUPPORTED_DATAREP; E_UNSUPPORTED_OPERATION; E_WIN; E_RMA_RANGE; E_RMA_ATTACH; E_RMA_FLAVOR; E_RMA_SHARED; E_ANY_OTHER_CLASS] (up_set "ncmpio_write_header")); [by_vm | exact up_closed_ncmpio_write_header | exact no_bad_link_above_ncmpio_write_header].
+Qed.
+
+Lemma nsd_ncmpio_write_header__MPI_File_write_at_all_2_refuted_and_partial :
+  (~ no_silent_drop link_sites (site_of "ncmpio_header_put.c:ncmpio_write_header:MPI_File_write_at_all#2" io_sites)) /\
+  (drops_classes (site_of "ncmpio_header_put.c:ncmpio_write_header:MPI_File_write_at_all#2" io_sites) [E_BUFFER; E_COUNT; E_TYPE; E_TAG; E_COMM; E_RANK; E_REQUEST; E_ROOT; E_GROUP; E_OP; E_TOPOLOGY; E_DIMS; E_ARG; E_UNKNOWN; E_TRUNCATE; E_OTHER; E_INTERN; E_IN_STATUS; E_PENDING; E_ACCESS; E_AMODE; E_ASSERT; E_BAD_FILE; E_BASE; E_CONVERSION; E_DISP; E_DUP_DATAREP; E_FILE_EXISTS; E_FILE_IN_USE; E_FILE; E_INFO_KEY; E_INFO_NOKEY; E_INFO_VALUE; E_INFO; E_IO; E_KEYVAL; E_LOCKTYPE; E_NAME; E_NO_MEM; E_NOT_SAME; E_NO_SPACE; E_NO_SUCH_FILE; E_PORT; E_QUOTA; E_READ_ONLY; E_RMA_CONFLICT; E_RMA_SYNC; E_SERVICE; E_SIZE; E_SPAWN; E_UNSUPPORTED_DATAREP; E_UNSUPPORTED_OPERATION; E_WIN; E_RMA_RANGE; E_RMA_ATTACH; E_RMA_FLAVOR; E_RMA_SHARED; E_ANY_OTHER_CLASS]) /\
+  (no_silent_drop_except link_sites (site_of "ncmpio_header_put.c:ncmpio_write_header:MPI_File_write_at_all#2" io_sites) [E_BUFFER; E_COUNT; E_TYPE; E_TAG; E_COMM; E_RANK; E_REQUEST; E_ROOT; E_GROUP; E_OP; E_TOPOLOGY; E_DIMS; E_ARG; E_UNKNOWN; E_TRUNCATE; E_OTHER; E_INTERN; E_IN_STATUS; E_PENDING; E_ACCESS; E_AMODE; E_ASSERT; E_BAD_FILE; E_BASE; E_CONVERSION; E_DISP; E_DUP_DATAREP; E_FILE_EXISTS; E_FILE_IN_USE; E_FILE; E_INFO_KEY; E_INFO_NOKEY; E_INFO_VALUE; E_INFO; E_IO; E_KEYVAL; E_LOCKTYPE; E_NAME; E_NO_MEM; E_NOT_SAME; E_NO_SPACE; E_NO_SUCH_FILE; E_PORT; E_QUOTA; E_READ_ONLY; E_RMA_CONFLICT; E_RMA_SYNC; E_SERVICE; E_SIZE; E_SPAWN; E_UNSUPPORTED_DATAREP; E_UNSUPPORTED_OPERATION; E_WIN; E_RMA_RANGE; E_RMA_ATTACH; E_RMA_FLAVOR; E_RMA_SHARED; E_ANY_OTHER_CLASS] []).
+Proof. exact (conj nsd_ncmpio_write_header__MPI_File_write_at_all_2_refuted (conj nsd_ncmpio_write_header__MPI_File_write_at_all_2_drops nsd_ncmpio_write_header__MPI_File_write_at_all_2_partial)). Qed.
+
+Lemma nsd_ncmpio_write_numrecs__MPI_File_write_at_all_1_refuted : ~ no_silent_drop link_sites (site_of "ncmpio_sync.c:ncmpio_write_numrecs:MPI_File_write_at_all#1" io_sites).
+Proof. apply (refute_by_class (site_of "ncmpio_sync.c:ncmpio_write_numrecs:MPI_File_write_at_all#1" io_sites) E_NO_SPACE). by_vm. Qed.
+
+Lemma nsd_ncmpio_write_numrecs__MPI_File_write_at_all_1_drops : drops_classes (site_of "ncmpio_sync.c:ncmpio_write_numrecs:MPI_File_write_at_all#1" io_sites) [E_BUFFER; E_COUNT; E_TYPE; E_TAG; E_COMM; E_RANK; E_REQUEST; E_ROOT; E_GROUP; E_OP; E_TOPOLOGY; E_DIMS; E_ARG; E_UNKNOWN; E_TRUNCATE; E_OTHER; E_INTERN; E_IN_STATUS; E_PENDING; E_ACCESS; E_AMODE; E_ASSERT; E_BAD_FILE; E_BASE; E_CONVERSION; E_DISP; E_DUP_DATAREP; E_FILE_EXISTS; E_FILE_IN_USE; E_FILE; E_INFO_KEY; E_INFO_NOKEY; E_INFO_VALUE; E_INFO; E_IO; E_KEYVAL; E_LOCKTYPE; E_NAME; E_NO_MEM; E_NOT_SAME; E_NO_SPACE; E_NO_SUCH_FILE; E_PORT; E_QUOTA; E_READ_ONLY; E_RMA_CONFLICT; E_RMA_SYNC; E_SERVICE; E_SIZE; E_SPAWN; E_UNSUPPORTED_DATAREP; E_UNSUPPORTED_OPERATION; E_WIN; E_RMA_RANGE; E_RMA_ATTACH; E_RMA_FLAVOR; E_RMA_SHARED; E_ANY_OTHER_CLASS].
+Proof. apply drops_classes_intro; by_vm. Qed.
+
+Lemma nsd_ncmpio_write_numrecs__MPI_File_write_at_all_1_partial : no_silent_drop_except link_sites (site_of "ncmpio_sync.c:ncmpio_write_numrecs:MPI_File_write_at_all#1" io_sites) [E_BUFFER; E_COUNT; E_TYPE; E_TAG; E_COMM; E_RANK; E_REQUEST; E_ROOT; E_GROUP; E_OP; E_TOPOLOGY; E_DIMS; E_ARG; E_UNKNOWN; E_TRUNCATE; E_OTHER; E_INTERN; E_IN_STATUS; E_PENDING; E_ACCESS; E_AMODE; E_ASSERT; E_BAD_FILE; E_BASE; E_CONVERSION; E_DISP; E_DUP_DATAREP; E_FILE_EXISTS; E_FILE_IN_USE; E_FILE; E_INFO_KEY; E_INFO_NOKEY; E_INFO_VALUE; E_INFO; E_IO; E_KEYVAL; E_LOCKTYPE; E_NAME; E_NO_MEM; E_NOT_SAME; E_NO_SPACE; E_NO_SUCH_FILE; E_PORT; E_QUOTA; E_READ_ONLY; E_RMA_CONFLICT; E_RMA_SYNC; E_SERVICE; E_SIZE; E_SPAWN; E_UNSUPPORTED_DATAREP; E_UNSUPPORTED_OPERATION; E_WIN; E_RMA_RANGE; E_RMA_ATTACH; E_RMA_FLAVOR; E_RMA_SHARED; E_ANY_OTHER_CLASS] bad_link_ids.
+Proof. apply no_silent_drop_except_intro; by_vm. Qed.
+
+Lemma nsd_ncmpio_write_numrecs__MPI_File_write_at_all_1_refuted_and_partial :
+  (~ no_silent_drop link_sites (site_of "ncmpio_sync.c:ncmpio_write_numrecs:MPI_File_write_at_all#1" io_sites)) /\
+  (drops_classes (site_of "ncmpio_sync.c:ncmpio_write_numrecs:MPI_File_write_at_all#1" io_sites) [E_BUFFER; E_COUNT; E_TYPE; E_TAG; E_COMM; E_RANK; E_REQUEST; E_ROOT; E_GROUP; E_OP; E_TOPOLOGY; E_DIMS; E_ARG; E_UNKNOWN; E_TRUNCATE; E_OTHER; E_INTERN; E_IN_STATUS; E_PENDING; E_ACCESS; E_AMODE; E_ASSERT; E_BAD_FILE; E_BASE; E_CONVERSION; E_DISP; E_DUP_DATAREP; E_FILE_EXISTS; E_FILE_IN_USE; E_FILE; E_INFO_KEY; E_INFO_NOKEY; E_INFO_VALUE; E_INFO; E_IO; E_KEYVAL; E_LOCKTYPE; E_NAME; E_NO_MEM; E_NOT_SAME; E_NO_SPACE; E_NO_SUCH_FILE; E_PORT; E_QUOTA; E_READ_ONLY; E_RMA_CONFLICT; E_RMA_SYNC; E_SERVICE; E_SIZE; E_SPAWN; E_UNSUPPORTED_DATAREP; E_UNSUPPORTED_OPERATION; E_WIN; E_RMA_RANGE; E_RMA_ATTACH; E_RMA_FLAVOR; E_RMA_SHARED; E_ANY_OTHER_CLASS]) /\
+  (no_silent_drop_except link_sites (site_of "ncmpio_sync.c:ncmpio_write_numrecs:MPI_File_write_at_all#1" io_sites) [E_BUFFER; E_COUNT; E_TYPE; E_TAG; E_COMM; E_RANK; E_REQUEST; E_ROOT; E_GROUP; E_OP; E_TOPOLOGY; E_DIMS; E_ARG; E_UNKNOWN; E_TRUNCATE; E_OTHER; E_INTERN; E_IN_STATUS; E_PENDING; E_ACCESS; E_AMODE; E_ASSERT; E_BAD_FILE; E_BASE; E_CONVERSION; E_DISP; E_DUP_DATAREP; E_FILE_EXISTS; E_FILE_IN_USE; E_FILE; E_INFO_KEY; E_INFO_NOKEY; E_INFO_VALUE; E_INFO; E_IO; E_KEYVAL; E_LOCKTYPE; E_NAME; E_NO_MEM; E_NOT_SAME; E_NO_SPACE; E_NO_SUCH_FILE; E_PORT; E_QUOTA; E_READ_ONLY; E_RMA_CONFLICT; E_RMA_SYNC; E_SERVICE; E_SIZE; E_SPAWN; E_UNSUPPORTED_DATAREP; E_UNSUPPORTED_OPERATION; E_WIN; E_RMA_RANGE; E_RMA_ATTACH; E_RMA_FLAVOR; E_RMA_SHARED; E_ANY_OTHER_CLASS] bad_link_ids).
+Proof. exact (conj nsd_ncmpio_write_numrecs__MPI_File_write_at_all_1_refuted (conj nsd_ncmpio_write_numrecs__MPI_File_write_at_all_1_drops nsd_ncmpio_write_numrecs__MPI_File_write_at_all_1_partial)). Qed.
+
+Lemma nsd_ncmpio_write_numrecs__MPI_File_write_at_all_2_refuted : ~ no_silent_drop link_sites (site_of "ncmpio_sync.c:ncmpio_write_numrecs:MPI_File_write_at_all#2" io_sites).
+Proof. apply (refute_by_class (site_of "ncmpio_sync.c:ncmpio_write_numrecs:MPI_File_write_at_all#2" io_sites) E_NO_SPACE). by_vm. Qed.
+
+Lemma nsd_ncmpio_write_numrecs__MPI_File_write_at_all_2_drops : drops_classes (site_of "ncmpio_sync.c:ncmpio_write_numrecs:MPI_File_write_at_all#2" io_sites) [E_ACCESS; E_AMODE; E_BAD_FILE; E_FILE_EXISTS; E_NOT_SAME; E_NO_SPACE; E_NO_SUCH_FILE; E_QUOTA; E_READ_ONLY].
+Proof. apply drops_classes_intro; by_vm. Qed.
+
+Lemma nsd_ncmpio_write_numrecs__MPI_File_write_at_all_2_partial : no_silent_drop_except link_sites (site_of "ncmpio_sync.c:ncmpio_write_numrecs:MPI_File_write_at_all#2" io_sites) [E_ACCESS; E_AMODE; E_BAD_FILE; E_FILE_EXISTS; E_NOT_SAME; E_NO_SPACE; E_NO_SUCH_FILE; E_QUOTA; E_READ_ONLY] bad_link_ids.
+Proof. apply no_silent_drop_except_intro; by_vm. Qed.
+
+Lemma nsd_ncmpio_write_numrecs__MPI_File_write_at_all_2_refuted_and_partial :
+  (~ no_silent_drop link_sites (site_of "ncmpio_sync.c:ncmpio_write_numrecs:MPI_File_write_at_all#2" io_sites)) /\
+  (drops_classes (site_of "ncmpio_sync.c:ncmpio_write_numrecs:MPI_File_write_at_all#2" io_sites) [E_ACCESS; E_AMODE; E_BAD_FILE; E_FILE_EXISTS; E_NOT_SAME; E_NO_SPACE; E_NO_SUCH_FILE; E_QUOTA; E_READ_ONLY]) /\
+  (no_silent_drop_except link_sites (site_of "ncmpio_sync.c:ncmpio_write_numrecs:MPI_File_write_at_all#2" io_sites) [E_ACCESS; E_AMODE; E_BAD_FILE; E_FILE_EXISTS; E_NOT_SAME; E_NO_SPACE; E_NO_SUCH_FILE; E_QUOTA; E_READ_ONLY] bad_link_ids).
+Proof. exact (conj nsd_ncmpio_write_numrecs__MPI_File_write_at_all_2_refuted (conj nsd_ncmpio_write_numrecs__MPI_File_write_at_all_2_drops nsd_ncmpio_write_numrecs__MPI_File_write_at_all_2_partial)). Qed.
+
+Lemma nsd_ncmpio_write_numrecs__MPI_File_write_at_refuted : ~ no_silent_drop link_sites (site_of "ncmpio_sync.c:ncmpio_write_numrecs:MPI_File_write_at" io_sites).
+Proof. apply (refute_by_class (site_of "ncmpio_sync.c:ncmpio_write_numrecs:MPI_File_write_at" io_sites) E_NO_SPACE). by_vm. Qed.
+
+Lemma nsd_ncmpio_write_numrecs__MPI_File_write_at_drops : drops_classes (site_of "ncmpio_sync.c:ncmpio_write_numrecs:MPI_File_write_at" io_sites) [E_ACCESS; E_AMODE; E_BAD_FILE; E_FILE_EXISTS; E_NOT_SAME; E_NO_SPACE; E_NO_SUCH_FILE; E_QUOTA; E_READ_ONLY].
+Proof. apply drops_classes_intro; by_vm. Qed.
+
+Lemma nsd_ncmpio_write_numrecs__MPI_File_write_at_partial : no_silent_drop_except link_sites (site_of "ncmpio_sync.c:ncmpio_write_numrecs:MPI_File_write_at" io_sites) [E_ACCESS; E_AMODE; E_BAD_FILE; E_FILE_EXISTS; E_NOT_SAME; E_NO_SPACE; E_NO_SUCH_FILE; E_QUOTA; E_READ_ONLY] bad_link_ids.
+Proof. apply no_silent_drop_except_intro; by_vm. Qed.
+
+Lemma nsd_ncmpio_write_numrecs__MPI_File_write_at_refuted_and_partial :
+  (~ no_silent_drop link_sites (site_of "ncmpio_sync.c:ncmpio_write_numrecs:MPI_File_write_at" io_sites)) /\
+  (drops_classes (site_of "ncmpio_sync.c:ncmpio_write_numrecs:MPI_File_write_at" io_sites) [E_ACCESS; E_AMODE; E_BAD_FILE; E_FILE_EXISTS; E_NOT_SAME; E_NO_SPACE; E_NO_SUCH_FILE; E_QUOTA; E_READ_ONLY]) /\
+  (no_silent_drop_except link_sites (site_of "ncmpio_sync.c:ncmpio_write_numrecs:MPI_File_write_at" io_sites) [E_ACCESS; E_AMODE; E_BAD_FILE; E_FILE_EXISTS; E_NOT_SAME; E_NO_SPACE; E_NO_SUCH_FILE; E_QUOTA; E_READ_ONLY] bad_link_ids).
+Proof. exact (conj nsd_ncmpio_write_numrecs__MPI_File_write_at_refuted (conj nsd_ncmpio_write_numrecs__MPI_File_write_at_drops nsd_ncmpio_write_numrecs__MPI_File_write_at_partial)). Qed.
+
+Lemma nsd_ncmpio_getput_zero_req__MPI_File_read_all_refuted : ~ no_silent_drop link_sites (site_of "ncmpio_wait.c:ncmpio_getput_zero_req:MPI_File_read_all" io_sites).
+Proof.
+  apply (refute_by_link (site_of "ncmpio_wait.c:ncmpio_getput_zero_req:MPI_File_read_all" io_sites) (sites_of ["ncmpio_wait.c:req_aggregation:ncmpio_getput_zero_req"; "ncmpio_wait.c:wait_getput:req_aggregation"] link_sites) (site_of "ncmpio_wait.c:req_commit:wait_getput#1" link_sites)).
+  - apply site_of_In; by_vm.
+  - by_vm.
+  - by_vm.
+  - apply sites_of_In; by_vm.
+Qed.
+
+Lemma nsd_ncmpio_getput_zero_req__MPI_File_read_all_partial : no_silent_drop_except link_sites (site_of "ncmpio_wait.c:ncmpio_getput_zero_req:MPI_File_read_all" io_sites) [] bad_link_ids.
+Proof. apply no_silent_drop_except_intro; by_vm. Qed.
+
+Lemma nsd_ncmpio_getput_zero_req__MPI_File_read_all_refuted_and_partial :
+  (~ no_silent_drop link_sites (site_of "ncmpio_wait.c:ncmpio_getput_zero_req:MPI_File_read_all" io_sites)) /\
+  (no_silent_drop_except link_sites (site_of "ncmpio_wait.c:ncmpio_getput_zero_req:MPI_File_read_all" io_sites) [] bad_link_ids).
+Proof. exact (conj nsd_ncmpio_getput_zero_req__MPI_File_read_all_refuted nsd_ncmpio_getput_zero_req__MPI_File_read_all_partial). Qed.
+
+Lemma nsd_ncmpio_getput_zero_req__MPI_File_read_refuted : ~ no_silent_drop link_sites (site_of "ncmpio_wait.c:ncmpio_getput_zero_req:MPI_File_read" io_sites).
+Proof.
+  apply (refute_by_link (site_of "ncmpio_wait.c:ncmpio_getput_zero_req:MPI_File_read" io_sites) (sites_of ["ncmpio_wait.c:req_aggregation:ncmpio_getput_zero_req"; "ncmpio_wait.c:wait_getput:req_aggregation"] link_sites) (site_of "ncmpio_wait.c:req_commit:wait_getput#1" link_sites)).
+  - apply site_of_In; by_vm.
+  - by_vm.
+  - by_vm.
+  - apply sites_of_In; by_vm.
+Qed.
+
+Lemma nsd_ncmpio_getput_zero_req__MPI_File_read_partial : no_silent_drop_except link_sites (site_of "ncmpio_wait.c:ncmpio_getput_zero_req:MPI_File_read" io_sites) [] bad_link_ids.
+Proof. apply no_silent_drop_except_intro; by_vm. Qed.
+
+Lemma nsd_ncmpio_getput_zero_req__MPI_File_read_refuted_and_partial :
+  (~ no_silent_drop link_sites (site_of "ncmpio_wait.c:ncmpio_getput_zero_req:MPI_File_read" io_sites)) /\
+  (no_silent_drop_except link_sites (site_of "ncmpio_wait.c:ncmpio_getput_zero_req:MPI_File_read" io_sites) [] bad_link_ids).
+Proof. exact (conj nsd_ncmpio_getput_zero_req__MPI_File_read_refuted nsd_ncmpio_getput_zero_req__MPI_File_read_partial). Qed.
+
+Lemma nsd_ncmpio_getput_zero_req__MPI_File_write_all_refuted : ~ no_silent_drop link_sites (site_of "ncmpio_wait.c:ncmpio_getput_zero_req:MPI_File_write_all" io_sites).
+Proof.
+  apply (refute_by_link (site_of "ncmpio_wait.c:ncmpio_getput_zero_req:MPI_File_write_all" io_sites) (sites_of ["ncmpio_wait.c:req_aggregation:ncmpio_getput_zero_req"; "ncmpio_wait.c:wait_getput:req_aggregation"] link_sites) (site_of "ncmpio_wait.c:req_commit:wait_getput#1" link_sites)).
+  - apply site_of_In; by_vm.
+  - by_vm.
+  - by_vm.
+  - apply sites_of_In; by_vm.
+Qed.
+
+Lemma nsd_ncmpio_getput_zero_req__MPI_File_write_all_partial : no_silent_drop_except link_sites (site_of "ncmpio_wait.c:ncmpio_getput_zero_req:MPI_File_write_all" io_sites) [] bad_link_ids.
+Proof. apply no_silent_drop_except_intro; by_vm. Qed.
+
+Lemma nsd_ncmpio_getput_zero_req__MPI_File_write_all_refuted_and_partial :
+  (~ no_silent_drop link_sites (site_of "ncmpio_wait.c:ncmpio_getput_zero_req:MPI_File_write_all" io_sites)) /\
+  (no_silent_drop_except link_sites (site_of "ncmpio_wait.c:ncmpio_getput_zero_req:MPI_File_write_all" io_sites) [] bad_link_ids).
+Proof. exact (conj nsd_ncmpio_getput_zero_req__MPI_File_write_all_refuted nsd_ncmpio_getput_zero_req__MPI_File_write_all_partial). Qed.
+
+Lemma nsd_ncmpio_getput_zero_req__MPI_File_write_refuted : ~ no_silent_drop link_sites (site_of "ncmpio_wait.c:ncmpio_getput_zero_req:MPI_File_write" io_sites).
+Proof.
+  apply (refute_by_link (site_of "ncmpio_wait.c:ncmpio_getput_zero_req:MPI_File_write" io_sites) (sites_of ["ncmpio_wait.c:req_aggregation:ncmpio_getput_zero_req"; "ncmpio_wait.c:wait_getput:req_aggregation"] link_sites) (site_of "ncmpio_wait.c:req_commit:wait_getput#1" link_sites)).
+  - apply site_of_In; by_vm.
+  - by_vm.
+  - by_vm.
+  - apply sites_of_In; by_vm.
+Qed.
+
+Lemma nsd_ncmpio_getput_zero_req__MPI_File_write_partial : no_silent_drop_except link_sites (site_of "ncmpio_wait.c:ncmpio_getput_zero_req:MPI_File_write" io_sites) [] bad_link_ids.
+Proof. apply no_silent_drop_except_intro; by_vm. Qed.
+
+Lemma nsd_ncmpio_getput_zero_req__MPI_File_write_refuted_and_partial :
+  (~ no_silent_drop link_sites (site_of "ncmpio_wait.c:ncmpio_getput_zero_req:MPI_File_write" io_sites)) /\
+  (no_silent_drop_except link_sites (site_of "ncmpio_wait.c:ncmpio_getput_zero_req:MPI_File_write" io_sites) [] bad_link_ids).
+Proof. exact (conj nsd_ncmpio_getput_zero_req__MPI_File_write_refuted nsd_ncmpio_getput_zero_req__MPI_File_write_partial). Qed.
+
+Lemma ch_enddef_header_write : chain_reaches_api link_sites (chain_of "enddef: header write").
+Proof. apply chain_reaches_api_intro; [by_vm | apply forallb_hops_bad; by_vm]. Qed.
+
+Lemma ch__enddef_header_write : chain_reaches_api link_sites (chain_of "_enddef: header write").
+Proof. apply chain_reaches_api_intro; [by_vm | apply forallb_hops_bad; by_vm]. Qed.
+
+Lemma ch_put_collective_numrecs : chain_reaches_api link_sites (chain_of "put (collective): numrecs").
+Proof. apply chain_reaches_api_intro; [by_vm | apply forallb_hops_bad; by_vm]. Qed.
+
+Lemma ch_sync_numrecs_numrecs : chain_reaches_api link_sites (chain_of "sync_numrecs: numrecs").
+Proof. apply chain_reaches_api_intro; [by_vm | apply forallb_hops_bad; by_vm]. Qed.
+
+Lemma ch_sync_numrecs : chain_reaches_api link_sites (chain_of "sync: numrecs").
+Proof. apply chain_reaches_api_intro; [by_vm | apply forallb_hops_bad; by_vm]. Qed.
+
+Lemma ch_end_indep_data_numrecs : chain_reaches_api link_sites (chain_of "end_indep_data: numrecs").
+Proof. apply chain_reaches_api_intro; [by_vm | apply forallb_hops_bad; by_vm]. Qed.
+
+Lemma ch_close_independent_mode_numrecs : chain_reaches_api link_sites (chain_of "close (independent mode): numrecs").
+Proof. apply chain_reaches_api_intro; [by_vm | apply forallb_hops_bad; by_vm]. Qed.
+
+Lemma ch_wait_all_numrecs_refuted : ~ chain_reaches_api link_sites (chain_of "wait_all: numrecs").
+Proof. apply (chain_refute (chain_of "wait_all: numrecs") 2 "req_commit" "wait_getput"); by_vm. Qed.
+
+Lemma ch_wait_all_numrecs_partial : chain_reaches_api_except link_sites (chain_of "wait_all: numrecs") bad_link_ids.
+Proof. apply chain_reaches_api_except_intro; by_vm. Qed.
+
+Lemma ch_enddef_after_redef_move_fixed : chain_reaches_api link_sites (chain_of "enddef after redef: move fixed").
+Proof. apply chain_reaches_api_intro; [by_vm | apply forallb_hops_bad; by_vm]. Qed.
+
+Lemma ch_enddef_after_redef_move_records : chain_reaches_api link_sites (chain_of "enddef after redef: move records").
+Proof. apply chain_reaches_api_intro; [by_vm | apply forallb_hops_bad; by_vm]. Qed.
+
+Lemma ch_enddef_fill_new_variables : chain_reaches_api link_sites (chain_of "enddef: fill new variables").
+Proof. apply chain_reaches_api_intro; [by_vm | apply forallb_hops_bad; by_vm]. Qed.
+
+Lemma ch_fill_var_rec : chain_reaches_api link_sites (chain_of "fill_var_rec").
+Proof. apply chain_reaches_api_intro; [by_vm | apply forallb_hops_bad; by_vm]. Qed.
+
+Lemma ch_fill_var_rec_numrecs : chain_reaches_api link_sites (chain_of "fill_var_rec: numrecs").
+Proof. apply chain_reaches_api_intro; [by_vm | apply forallb_hops_bad; by_vm]. Qed.
+
+Lemma ch_put_blocking : chain_reaches_api link_sites (chain_of "put (blocking)").
+Proof. apply chain_reaches_api_intro; [by_vm | apply forallb_hops_bad; by_vm]. Qed.
+
+Lemma ch_put_independent : chain_reaches_api link_sites (chain_of "put (independent)").
+Proof. apply chain_reaches_api_intro; [by_vm | apply forallb_hops_bad; by_vm]. Qed.
+
+Lemma ch_get_blocking : chain_reaches_api link_sites (chain_of "get (blocking)").
+Proof. apply chain_reaches_api_intro; [by_vm | apply forallb_hops_bad; by_vm]. Qed.
+
+Lemma ch_get_independent : chain_reaches_api link_sites (chain_of "get (independent)").
+Proof. apply chain_reaches_api_intro; [by_vm | apply forallb_hops_bad; by_vm]. Qed.
+
+Lemma ch_put_zero_length_participation : chain_reaches_api link_sites (chain_of "put, zero-length participation").
+Proof. apply chain_reaches_api_intro; [by_vm | apply forallb_hops_bad; by_vm]. Qed.
+
+Lemma ch_get_zero_length_participation : chain_reaches_api link_sites (chain_of "get, zero-length participation").
+Proof. apply chain_reaches_api_intro; [by_vm | apply forallb_hops_bad; by_vm]. Qed.
+
+Lemma ch_wait_all_refuted : ~ chain_reaches_api link_sites (chain_of "wait_all").
+Proof. apply (chain_refute (chain_of "wait_all") 2 "req_commit" "wait_getput"); by_vm. Qed.
+
+Lemma ch_wait_all_partial : chain_reaches_api_except link_sites (chain_of "wait_all") bad_link_ids.
+Proof. apply chain_reaches_api_except_intro; by_vm. Qed.
+
+Lemma ch_wait_all_one_request_per_call_refuted : ~ chain_reaches_api link_sites (chain_of "wait_all (one request per call)").
+Proof. apply (chain_refute (chain_of "wait_all (one request per call)") 2 "req_commit" "wait_getput"); by_vm. Qed.
+
+Lemma ch_wait_all_one_request_per_call_partial : chain_reaches_api_except link_sites (chain_of "wait_all (one request per call)") bad_link_ids.
+Proof. apply chain_reaches_api_except_intro; by_vm. Qed.
+
+Lemma ch_wait_independent_refuted : ~ chain_reaches_api link_sites (chain_of "wait (independent)").
+Proof. apply (chain_refute (chain_of "wait (independent)") 2 "req_commit" "wait_getput"); by_vm. Qed.
+
+Lemma ch_wait_independent_partial : chain_reaches_api_except link_sites (chain_of "wait (independent)") bad_link_ids.
+Proof. apply chain_reaches_api_except_intro; by_vm. Qed.
+
+Lemma ch_wait_all_zero_length_participation_refuted : ~ chain_reaches_api link_sites (chain_of "wait_all, zero-length participation").
+Proof. apply (chain_refute (chain_of "wait_all, zero-length participation") 2 "req_commit" "wait_getput"); by_vm. Qed.
+
+Lemma ch_wait_all_zero_length_participation_partial : chain_reaches_api_except link_sites (chain_of "wait_all, zero-length participation") bad_link_ids.
+Proof. apply chain_reaches_api_except_intro; by_vm. Qed.
+
+Lemma ch_open_header_read : chain_reaches_api link_sites (chain_of "open: header read").
+Proof. apply chain_reaches_api_intro; [by_vm | apply forallb_hops_bad; by_vm]. Qed.
+
+Lemma ch_open_header_read_variables_refuted : ~ chain_reaches_api link_sites (chain_of "open: header read (variables)").
+Proof. apply (chain_refute (chain_of "open: header read (variables)") 4 "hdr_get_NC_var" "hdr_get_uint32"); by_vm. Qed.
+
+Lemma ch_open_header_read_variables_partial : chain_reaches_api_except link_sites (chain_of "open: header read (variables)") bad_link_ids.
+Proof. apply chain_reaches_api_except_intro; by_vm. Qed.
+
+Lemma ch_put_att_in_data_mode_header_write : chain_reaches_api link_sites (chain_of "put_att in data mode: header write").
+Proof. apply chain_reaches_api_intro; [by_vm | apply forallb_hops_bad; by_vm]. Qed.
+
+Lemma ch_rename_var_in_data_mode_header_write : chain_reaches_api link_sites (chain_of "rename_var in data mode: header write").
+Proof. apply chain_reaches_api_intro; [by_vm | apply forallb_hops_bad; by_vm]. Qed.
+
+Lemma chains_reach_api :
+  Forall (fun name => chain_reaches_api link_sites (chain_of name))
+    ["enddef: header write"; "_enddef: header write"; "put (collective): numrecs"; "sync_numrecs: numrecs"; "sync: numrecs"; "end_indep_data: numrecs"; "close (independent mode): numrecs"; "enddef after redef: move fixed"; "enddef after redef: move records"; "enddef: fill new variables"; "fill_var_rec"; "fill_var_rec: numrecs"; "put (blocking)"; "put (independent)"; "get (blocking)"; "get (independent)"; "put, zero-length participation"; "get, zero-length participation"; "open: header read"; "put_att in data mode: header write"; "rename_var in data mode: header write"].
+Proof. repeat (constructor; [first [exact ch_enddef_header_write | exact ch__enddef_header_write | exact ch_put_collective_numrecs | exact ch_sync_numrecs_numrecs | exact ch_sync_numrecs | exact ch_end_indep_data_numrecs | exact ch_close_independent_mode_numrecs | exact ch_enddef_after_redef_move_fixed | exact ch_enddef_after_redef_move_records | exact ch_enddef_fill_new_variables | exact ch_fill_var_rec | exact ch_fill_var_rec_numrecs | exact ch_put_blocking | exact ch_put_independent | exact ch_get_blocking | exact ch_get_independent | exact ch_put_zero_length_participation | exact ch_get_zero_length_participation | exact ch_open_header_read | exact ch_put_att_in_data_mode_header_write | exact ch_rename_var_in_data_mode_header_write] |]). constructor. Qed.
+
+Lemma chains_refuted_and_partial :
+  Forall (fun name => ~ chain_reaches_api link_sites (chain_of name) /\
+                       chain_reaches_api_except link_sites (chain_of name) bad_link_ids)
+    ["wait_all: numrecs"; "wait_all"; "wait_all (one request per call)"; "wait (independent)"; "wait_all, zero-length participation"; "open: header read (variables)"].
+Proof. repeat (constructor; [first [exact (conj ch_wait_all_numrecs_refuted ch_wait_all_numrecs_partial) | exact (conj ch_wait_all_refuted ch_wait_all_partial) | exact (conj ch_wait_all_one_request_per_call_refuted ch_wait_all_one_request_per_call_partial) | exact (conj ch_wait_independent_refuted ch_wait_independent_partial) | exact (conj ch_wait_all_zero_length_participation_refuted ch_wait_all_zero_length_participation_partial) | exact (conj ch_open_header_read_variables_refuted ch_open_header_read_variables_partial)] |]). constructor. Qed.
+
